@@ -21,6 +21,7 @@ import datetime
 from typing import Dict, List, Union, Any, Callable, Optional, Tuple  # noqa: F401
 
 import dateutil.parser
+import dateutil.tz
 import numpy as np
 import re
 
@@ -51,6 +52,11 @@ class MementoCodec:
 
     @classmethod
     def decode_datetime(cls, state: str) -> Union[datetime.date, datetime.datetime]:
+        if state.endswith("Z"):
+            # "Z" is written for UTC. Left to the parser, a zone name that the local zone also
+            # goes by gets the *local* zone attached, and a zone called "UTC" need not be at
+            # offset zero (TZ=UTC+3): the instant would shift by the local offset.
+            return dateutil.parser.parse(state[:-1]).replace(tzinfo=dateutil.tz.UTC)
         result = dateutil.parser.parse(state)
         if re.match(r"^\d\d\d\d-\d\d-\d\d$", state):
             return result.date()
